@@ -112,6 +112,12 @@ fn new_ctx() -> Ctx {
     fn host_conv(s: String, f: f64, flag: TulispObject) -> String {
         format!("{}|{}|{}", s, f.to_bits(), flag.is_truthy())
     }
+    // a host function that modifies the list of its rest arguments: that list is its own
+    #[tulisp_fn(add_func = "ctx", name = "host-collect")]
+    fn host_collect(rest: TulispObject) -> Result<TulispObject, Error> {
+        rest.push(TulispObject::from(99))?;
+        Ok(rest)
+    }
     #[tulisp_fn(add_func = "ctx", name = "host-id")]
     fn host_id(x: TulispObject) -> TulispObject {
         x
@@ -339,6 +345,7 @@ fn run_api(ops: &[String]) -> Vec<String> {
             "evals" => match ctx.eval_string(&hex_decode(f[1])) { Ok(o) => { regs.insert(f[2].parse().unwrap(), o); "u".to_string() } Err(_) => "e".to_string() },
             "ctxeval" => match ctx.eval(&g(&regs, f[1])) { Ok(o) => { regs.insert(f[2].parse().unwrap(), o); "u".to_string() } Err(_) => "e".to_string() },
             "evalthen" => match ctx.eval_and_then(&g(&regs, f[1]), |v| Ok(v.to_string())) { Ok(s) => format!("v{}", hex_encode(&s)), Err(_) => "e".to_string() },
+            "evaleach" => match ctx.eval_each(&g(&regs, f[1])) { Ok(o) => { regs.insert(f[2].parse().unwrap(), o); "u".to_string() } Err(_) => "e".to_string() },
             "ctxfuncall" => match ctx.funcall(&g(&regs, f[1]), &g(&regs, f[2])) { Ok(o) => { regs.insert(f[3].parse().unwrap(), o); "u".to_string() } Err(_) => "e".to_string() },
             "ctxmap" => match ctx.map(&g(&regs, f[1]), &g(&regs, f[2])) { Ok(o) => { regs.insert(f[3].parse().unwrap(), o); "u".to_string() } Err(_) => "e".to_string() },
             "ctxfilter" => match ctx.filter(&g(&regs, f[1]), &g(&regs, f[2])) { Ok(o) => { regs.insert(f[3].parse().unwrap(), o); "u".to_string() } Err(_) => "e".to_string() },
